@@ -552,6 +552,7 @@ impl<S: WebSocket, T: TimestampProvider> Task<S, T> {
                         flow_id,
                         payload,
                         tx_msg_tx: self.tx_msg_tx.clone(), // cheap
+                        replied: core::sync::atomic::AtomicBool::new(false),
                     };
                     if let Err(e) = sender.send(request).await {
                         warn!("Failed to return `Bind` request: {e}");
